@@ -687,7 +687,10 @@ def r9(ctx, F):
             continue
         import inline
         nth0 = nth
-        same_mod = lambda h: not h.impl_trait and h.kind != 'Closure' and h.path.startswith(adt.rsplit('::', 1)[0]) and len(h.blocks) < 60
+        _ints = ('usize', 'u32', 'u64', 'isize', 'i32', 'i64', 'bool')
+        # helpers of the calculator's module, and pure index arithmetic shared between the modes (`NthAdvance::new(idx, remaining, n)`)
+        same_mod = lambda h: not h.impl_trait and h.kind != 'Closure' and len(h.blocks) < 60 and (
+            h.path.startswith(adt.rsplit('::', 1)[0]) or (h.j.get('inputs') and all(i_.get('s') in _ints for i_ in h.j['inputs'])))
         nth = inline.inlined(F, nth0, depth=2, force=same_mod, stop=lambda h: not same_mod(h))      # `let Some(take) = self.skip_count(n) else { drain }`
         P = prov.prov_of(nth)
         # overshoot branch: blocks that know `n >= len()`
